@@ -165,3 +165,66 @@ Proof.
   end.
   all: match goal with H : (APPEND_LIMIT <? _) = false |- _ => apply N.ltb_ge in H; rewrite firstn_length; lia end.
 Qed.
+
+(* ---- the rest of a failed command's line is discarded up to its LF, nothing else ends it ---- *)
+
+Lemma take_while_not_lf : forall text rest, forallb not_lf text = true ->
+  take_while not_lf (text ++ LF_ :: rest) = Some (text, LF_ :: rest).
+Proof.
+  induction text as [|c t IH]; intros rest H.
+  - reflexivity.
+  - cbn [forallb] in H. apply andb_prop in H. destruct H as [Hc Ht].
+    cbn [app take_while]. rewrite Hc, (IH rest Ht). reflexivity.
+Qed.
+
+(* DiscardLine consumes exactly the bytes up to and including the first LF: a CR that is not
+   followed by LF (or any other byte) does not end the line *)
+Lemma discard_line_ends_at_lf : forall text rest, forallb not_lf text = true ->
+  fst (discard_line false (text ++ LF_ :: rest)) = rest.
+Proof.
+  intros text rest H. unfold discard_line, line_tail_rev.
+  rewrite (take_while_not_lf text rest H). reflexivity.
+Qed.
+
+(* whatever a handler leaves unread of a line without announced literal, the next command
+   read_command parses starts after that line's LF *)
+Lemma discard_line_no_lf_is_eof : forall s, forallb not_lf s = true ->
+  discard_line false s = ([], false).
+Proof.
+  intros s H. unfold discard_line, line_tail_rev.
+  assert (E : take_while not_lf s = None).
+  { induction s as [|c t IH]; [reflexivity|]. cbn [forallb] in H. apply andb_prop in H.
+    destruct H as [Hc Ht]. cbn [take_while]. rewrite Hc, (IH Ht). reflexivity. }
+  rewrite E. reflexivity.
+Qed.
+
+Definition fx_cfg := mkFcfg true false false (fun _ => false) (fun _ => false).
+Definition fx_run (s : bytes) := let f := run_stream fx_cfg SAuth s in (rev (fs_out f), rev (fs_calls f)).
+
+(* a handler that fails right after a literal it has read (mailbox name not valid UTF-7): the
+   rest of the line is discarded, not executed *)
+Example rest_of_line_after_literal_discarded :
+  fx_run (s2b "b SELECT {3}" ++ CRLF_ ++ s2b "&&&c DELETE Victim" ++ CRLF_ ++ s2b "d NOOP" ++ CRLF_)
+  = ([OCont; OTagged (s2b "b") 1; OTagged (s2b "d") 0], []).
+Proof. vm_compute. reflexivity. Qed.
+
+Example rest_of_line_after_nonsync_literal_discarded :
+  fx_run (s2b "b DELETE {3+}" ++ CRLF_ ++ s2b "&&&c DELETE Victim" ++ CRLF_ ++ s2b "d NOOP" ++ CRLF_)
+  = ([OTagged (s2b "b") 1; OTagged (s2b "d") 0], []).
+Proof. vm_compute. reflexivity. Qed.
+
+(* a bare CR does not end a discarded line *)
+Example bare_cr_does_not_end_line :
+  fx_run (s2b "b FOO x" ++ [CR_] ++ s2b "c DELETE Victim" ++ CRLF_ ++ s2b "d NOOP" ++ CRLF_)
+  = ([OTagged (s2b "b") 2; OTagged (s2b "d") 0], []).
+Proof. vm_compute. reflexivity. Qed.
+
+(* "{n+}" followed by SP CRLF, CRLF, SP LF or LF in a discarded line announces octets: the
+   connection ends after the tagged response *)
+Example discarded_nonsync_header_forms_close :
+  forallb (fun eol =>
+    match fx_run (s2b "b NOOP {20+}" ++ eol ++ s2b "c DELETE Victim" ++ CRLF_ ++ s2b "xx") with
+    | ([OTagged _ 2; OBye], []) => true
+    | _ => false
+    end) [CRLF_; SP_ :: CRLF_; [LF_]; [SP_; LF_]] = true.
+Proof. vm_compute. reflexivity. Qed.
